@@ -85,10 +85,12 @@ fn main() {
         "C02" => props::c02::run(&mk("C02")),
         "C03" => props::c03::run(&mk("C03")),
         "C05" => props::c05::run(&mk("C05")),
+        "C07" => props::c07::run(&mk("C07")),
         "C08" => props::c08::run(&mk("C08")),
         "C09" => props::c09::run(&mk("C09")),
         "C10" => props::c10::run(&mk("C10")),
         "C11" => props::c11::run(&mk("C11")),
+        "C13" => props::c13::run(&mk("C13")),
         "C16" => props::c16::run(&mk("C16")),
         "C20" => props::c20::run(&mk("C20")),
         _ => {
